@@ -31,4 +31,7 @@ theorem sweep_unconditional (i : Inst) : Extracted.sweepUnconditional = sweepSpa
 /-- the rounds are one second apart -/
 theorem killer_period_eq : Extracted.killerPeriod = killerPeriod := by decide
 
+/-- both retry loops start every iteration with `await asyncio.sleep(0)`: the variant `progress` / `daemon_progress` are about -/
+theorem loops_yield_each_iteration : Extracted.loopsYieldEachIteration = treeYielding := by decide
+
 end Kopf.C09.Tie
